@@ -11,6 +11,7 @@ import (
 	"encoding/json"
 	"fmt"
 	"go/ast"
+	"go/parser"
 	"go/printer"
 	"go/token"
 	"go/types"
@@ -38,10 +39,13 @@ type Config struct {
 	FsPoints bool     // rewrite file-system calls into vrt wrappers (kill/fault points)
 	Skip     []string // package path prefixes left untouched
 	Modfile  string   // alternative go.mod (-modfile) or ""
+	ImportMap map[string]string // import path replacement (environment models)
+	premapped map[string]string
 }
 
 // Run instruments and returns the overlay including rewritten files.
 func Run(cfg Config) (map[string]string, error) {
+	cfg.premapped = map[string]string{}
 	ov := map[string][]byte{}
 	for virt, real := range cfg.Overlay {
 		b, err := os.ReadFile(real)
@@ -49,6 +53,13 @@ func Run(cfg Config) (map[string]string, error) {
 			return nil, err
 		}
 		ov[virt] = b
+	}
+	// Environment models: replace import paths textually before loading, so that the whole
+	// closure is type-checked against the model packages.
+	if len(cfg.ImportMap) > 0 {
+		if err := premapImports(cfg, ov); err != nil {
+			return nil, err
+		}
 	}
 	fset := token.NewFileSet()
 	pc := &packages.Config{
@@ -95,6 +106,9 @@ func Run(cfg Config) (map[string]string, error) {
 	for k, v := range cfg.Overlay {
 		out[k] = v
 	}
+	for k, v := range cfg.premapped {
+		out[k] = v
+	}
 	paths := make([]string, 0, len(seen))
 	for p := range seen {
 		paths = append(paths, p)
@@ -118,7 +132,7 @@ func Run(cfg Config) (map[string]string, error) {
 		if skip {
 			continue
 		}
-		rw := &rewriter{pkg: p, fset: fset, info: p.TypesInfo, probes: probes, fsPoints: cfg.FsPoints}
+		rw := &rewriter{pkg: p, fset: fset, info: p.TypesInfo, probes: probes, fsPoints: cfg.FsPoints, importMap: cfg.ImportMap}
 		dir := filepath.Join(cfg.OutDir, strings.ReplaceAll(strings.TrimPrefix(pp, modPath), "/", "_"))
 		if err := os.MkdirAll(dir, 0755); err != nil {
 			return nil, err
@@ -176,6 +190,7 @@ type rewriter struct {
 	errs     []string
 	probes   map[string]bool
 	fsPoints bool
+	importMap map[string]string
 }
 
 func sel(x, name string) ast.Expr {
@@ -388,6 +403,7 @@ func (r *rewriter) file(f *ast.File) {
 	if r.used {
 		astutil.AddNamedImport(r.fset, f, "vrt", vrtPath)
 	}
+
 	for _, imp := range []string{"sync", "sync/atomic", "time", "context", "crypto/rand", "os"} {
 		if !astutil.UsesImport(f, imp) {
 			astutil.DeleteImport(r.fset, f, imp)
@@ -828,5 +844,77 @@ func stripDocs(f *ast.File) {
 			x.Doc, x.Comment = nil, nil
 		}
 		return true
+	})
+}
+
+// premapImports rewrites the import paths of ImportMap in every non-test Go file of the
+// repository (and of the overlay) and puts the results into the overlay.
+func premapImports(cfg Config, ov map[string][]byte) error {
+	dir := filepath.Join(cfg.OutDir, "premap")
+	if err := os.MkdirAll(dir, 0755); err != nil {
+		return err
+	}
+	n := 0
+	rewrite := func(path string, src []byte) error {
+		fs := token.NewFileSet()
+		f, err := parser.ParseFile(fs, path, src, parser.ImportsOnly)
+		if err != nil {
+			return nil // not our problem here
+		}
+		type edit struct {
+			off, end int
+			s        string
+		}
+		var edits []edit
+		for _, is := range f.Imports {
+			if np, ok := cfg.ImportMap[strings.Trim(is.Path.Value, `"`)]; ok {
+				edits = append(edits, edit{fs.Position(is.Path.Pos()).Offset, fs.Position(is.Path.End()).Offset, fmt.Sprintf("%q", np)})
+			}
+		}
+		if len(edits) == 0 {
+			return nil
+		}
+		out := append([]byte(nil), src...)
+		for i := len(edits) - 1; i >= 0; i-- {
+			e := edits[i]
+			out = append(out[:e.off], append([]byte(e.s), out[e.end:]...)...)
+		}
+		n++
+		dst := filepath.Join(dir, fmt.Sprintf("%d_%s", n, filepath.Base(path)))
+		if err := os.WriteFile(dst, out, 0644); err != nil {
+			return err
+		}
+		ov[path] = out
+		cfg.premapped[path] = dst
+		return nil
+	}
+	for path, src := range ov {
+		if strings.HasSuffix(path, ".go") {
+			if err := rewrite(path, src); err != nil {
+				return err
+			}
+		}
+	}
+	return filepath.WalkDir(cfg.RepoDir, func(path string, d os.DirEntry, err error) error {
+		if err != nil {
+			return nil
+		}
+		if d.IsDir() {
+			if strings.HasPrefix(d.Name(), ".") && path != cfg.RepoDir {
+				return filepath.SkipDir
+			}
+			return nil
+		}
+		if !strings.HasSuffix(path, ".go") || strings.HasSuffix(path, "_test.go") {
+			return nil
+		}
+		if _, inOv := ov[path]; inOv {
+			return nil
+		}
+		src, err := os.ReadFile(path)
+		if err != nil {
+			return nil
+		}
+		return rewrite(path, src)
 	})
 }
